@@ -27,6 +27,7 @@ var (
 	ErrSeekFail           = errors.New("failed to seek properly")
 	ErrUnrecognizedWhence = errors.New("unrecognized whence")
 	ErrNegativeOffset     = errors.New("seek to a negative offset")
+	ErrNegativeSize       = errors.New("truncate to a negative size")
 	ErrNotUnixfs          = errors.New("dagmodifier only supports unixfs nodes (proto or raw)")
 )
 
@@ -747,6 +748,10 @@ func (dm *DagModifier) Seek(offset int64, whence int) (int64, error) {
 // Truncate truncates the current Node to 'size' and replaces it with the
 // new one.
 func (dm *DagModifier) Truncate(size int64) error {
+	if size < 0 {
+		return ErrNegativeSize
+	}
+
 	err := dm.Sync()
 	if err != nil {
 		return err
